@@ -1835,7 +1835,10 @@ impl KotoVm {
                 Str(result.into())
             }
             (List(a), List(b)) => {
-                let result: ValueVec = a.data().iter().chain(b.data().iter()).cloned().collect();
+                // One borrow at a time: `l + l` must not hold two borrows of the same list
+                // (a nested read lock can deadlock with the arc feature when a writer is waiting)
+                let mut result: ValueVec = a.data().iter().cloned().collect();
+                result.extend(b.data().iter().cloned());
                 List(KList::with_data(result))
             }
             (Tuple(a), Tuple(b)) => {
@@ -2172,10 +2175,14 @@ impl KotoVm {
             (Str(a), Str(b)) => a == b,
             (Range(a), Range(b)) => a == b,
             (List(a), List(b)) => {
-                let a = a.clone();
-                let b = b.clone();
-                let data_a = a.data();
-                let data_b = b.data();
+                // Compare copies: no borrow is held while element comparisons call back into
+                // the VM, and `l == l` doesn't borrow the same list twice
+                let data_a = a.data().clone();
+                let data_b = if a.is_same_instance(b) {
+                    data_a.clone()
+                } else {
+                    b.data().clone()
+                };
                 self.compare_value_ranges(&data_a, &data_b)?
             }
             (Tuple(a), Tuple(b)) => {
@@ -2224,10 +2231,14 @@ impl KotoVm {
             (Str(a), Str(b)) => a != b,
             (Range(a), Range(b)) => a != b,
             (List(a), List(b)) => {
-                let a = a.clone();
-                let b = b.clone();
-                let data_a = a.data();
-                let data_b = b.data();
+                // Compare copies: no borrow is held while element comparisons call back into
+                // the VM, and `l == l` doesn't borrow the same list twice
+                let data_a = a.data().clone();
+                let data_b = if a.is_same_instance(b) {
+                    data_a.clone()
+                } else {
+                    b.data().clone()
+                };
                 !self.compare_value_ranges(&data_a, &data_b)?
             }
             (Tuple(a), Tuple(b)) => {
@@ -2308,12 +2319,22 @@ impl KotoVm {
 
     // Called from run_equal / run_not_equal to compare the contents of maps
     fn compare_value_maps(&mut self, map_a: KMap, map_b: KMap) -> Result<bool> {
-        if map_a.len() != map_b.len() {
+        // Compare copies taken under a single borrow each: the size check and the walk see the
+        // same state, no borrow is held while value comparisons call back into the VM,
+        // and `m == m` doesn't borrow the same map twice
+        let data_a = map_a.data().clone();
+        let data_b = if map_a.is_same_instance(&map_b) {
+            data_a.clone()
+        } else {
+            map_b.data().clone()
+        };
+
+        if data_a.len() != data_b.len() {
             return Ok(false);
         }
 
-        for (key_a, value_a) in map_a.data().iter() {
-            let Some(value_b) = map_b.get(key_a) else {
+        for (key_a, value_a) in data_a.iter() {
+            let Some(value_b) = data_b.get(key_a).cloned() else {
                 return Ok(false);
             };
             match self.run_binary_op(BinaryOp::Equal, value_a.clone(), value_b)? {
